@@ -31,6 +31,7 @@ ASSUMPTIONS = [
     "After remove()/re-key through one handle, other *independent* handles on that job are re-created (their cached "
     "document object is bound to the old directory); Mode S keeps them to exhibit the stale-document finding.",
 ]
+MANIFEST = {"technique": 'runtime monitoring: plain-dict reference model; buffered vs unbuffered differential runs', "engine": 'reference-model monitor'}
 TIME_CAP = {"quick": 70, "thorough": 1500}
 
 SCALARS = [1, 2.5, "s", False, None, "é"]
